@@ -47,7 +47,8 @@ NewProgress(next, cap) ==
     [matched |-> 0, next |-> next, state |-> "P", paused |-> FALSE, pendSnap |-> 0, pendReqSnap |-> 0,
      active |-> FALSE, ins |-> RNew(cap), cg |-> 0, ci |-> 0]
 PrResetState(p, s) == [p EXCEPT !.paused = FALSE, !.pendSnap = 0, !.state = s, !.ins = RReset(@)]
-PrReset(p, next) == [p EXCEPT !.matched = 0, !.next = next, !.state = "P", !.paused = FALSE, !.pendSnap = 0,
+PrReset(p, next) == [p EXCEPT !.matched = IF Ab("ResetClearsMatched") THEN @ ELSE 0, !.next = next,
+                              !.state = IF Ab("ResetClearsProgressState") THEN @ ELSE "P", !.paused = FALSE, !.pendSnap = 0,
                               !.pendReqSnap = 0, !.active = FALSE, !.ins = RReset(@)]
 PrBecomeProbe(p) ==
     IF p.state = "S" THEN [PrResetState(p, "P") EXCEPT !.next = Max(p.matched + 1, p.pendSnap + 1)]
@@ -106,13 +107,14 @@ MajGC(V, ack, grp) ==
             ELSE IF \A v \in V : GroupOf(grp, v) # 0 THEN plain ELSE AckOf(ack, s[Len(s)])
 MaximalCommitted(n) ==
     LET ack == Matched(n)
-    IN IF ~n.groupCommit THEN JointCommitted(n.conf.voters, n.conf.outgoing, ack)
+    IN IF Ab("JointUsesBothHalves") /\ ~n.conf.autoLeave THEN MajCommitted(n.conf.voters, ack)
+       ELSE IF ~n.groupCommit THEN JointCommitted(n.conf.voters, n.conf.outgoing, ack)
        ELSE MinInf(MajGC(n.conf.voters, ack, GroupsOf(n)), MajGC(n.conf.outgoing, ack, GroupsOf(n)))
 
 VoteOf(n) == n.votes
 TallyResult(n) == JointVote(n.conf.voters, n.conf.outgoing, n.votes)
 HasQuorumSet(n, S) == HasQuorum(n.conf.voters, n.conf.outgoing, S)
-IsSingleton(n) == n.conf.outgoing = {} /\ Cardinality(n.conf.voters) = 1
+IsSingleton(n) == (Ab("SingletonChecksOutgoing") \/ n.conf.outgoing = {}) /\ Cardinality(n.conf.voters) = 1
 
 (* ---------------- uncommitted size ---------------- *)
 RECURSIVE DataSum(_)
@@ -206,7 +208,8 @@ FoldIds(Op(_, _), acc, S) ==
 Others(n) == DOMAIN n.pr \ {n.id}
 BcastAppend(n, st, c) == LET Op(a, j) == SendAppend(a, st, c, j) IN FoldIds(Op, n, Others(n))
 SendHeartbeat(n, to, ctx) ==
-    Send(n, [Msg("HB", to) EXCEPT !.commit = Min(n.pr[to].matched, n.log.committed), !.ctx = ctx])
+    Send(n, [Msg("HB", to) EXCEPT !.commit = IF Ab("HeartbeatCommitCap") THEN n.log.committed
+                                              ELSE Min(n.pr[to].matched, n.log.committed), !.ctx = ctx])
 LastPendingCtx(n) == IF n.ro.queue = <<>> THEN "" ELSE Last(n.ro.queue)
 BcastHeartbeatCtx(n, ctx) == LET Op(a, j) == SendHeartbeat(a, j, ctx) IN FoldIds(Op, n, Others(n))
 BcastHeartbeat(n) == BcastHeartbeatCtx(n, LastPendingCtx(n))
@@ -214,7 +217,8 @@ BcastHeartbeat(n) == BcastHeartbeatCtx(n, LastPendingCtx(n))
 (* ---------------- commit ---------------- *)
 MaybeCommit(n, st) ==                      \* <<changed?, n'>>
     LET mci == MaximalCommitted(n)
-    IN IF mci # Inf /\ LMaybeCommit(n.log, st, mci, n.term)
+    IN IF mci # Inf /\ (LMaybeCommit(n.log, st, mci, n.term)
+                        \/ (Ab("CommitTermCheck") /\ mci > n.log.committed /\ mci <= Last_(n, st)))
        THEN IF LCommitToFatal(n.log, st, mci) \/ n.id \notin DOMAIN n.pr THEN <<TRUE, Panic(n)>>
             ELSE LET n1 == SetLog(n, LCommitTo(n.log, mci))
                  IN <<TRUE, [n1 EXCEPT !.pr[n.id] = PrUpdateCommitted(@, mci)]>>
@@ -244,7 +248,7 @@ BecomeLeader(n, st, c, rt) ==
     ELSE LET n1 == [ResetNode(n, st, n.term, rt) EXCEPT !.lead = n.id, !.role = "L"]
              last == Last_(n1, st)
          IN IF last # n1.log.persisted \/ n.id \notin DOMAIN n1.pr THEN Panic(n1)
-            ELSE LET n2 == [n1 EXCEPT !.usz = 0, !.lti = last, !.pr[n.id] = PrBecomeReplicate(@), !.pci = last]
+            ELSE LET n2 == [n1 EXCEPT !.usz = 0, !.lti = IF Ab("LeaderTailIsLastIndex") THEN n1.log.committed ELSE last, !.pr[n.id] = PrBecomeReplicate(@), !.pci = last]
                      a == AppendEntry(n2, st, c, <<EmptyEntry>>)
                  IN IF ~a[1] THEN Panic(a[2]) ELSE a[2]
 
@@ -290,8 +294,8 @@ Hup(n, st, c, transfer, rt) ==
     ELSE LET lo == IF HasUSnap(n) THEN n.log.usnap.i + 1 ELSE n.log.applied + 1
              hi == n.log.committed + 1
          IN IF ScanFatal(n, st, lo, hi) THEN Panic(n)
-            ELSE IF HasUnappliedConfChanges(n, st, lo, hi) THEN n
-            ELSE IF n.log.persisted < Last_(n, st)
+            ELSE IF HasUnappliedConfChanges(n, st, lo, hi) /\ ~Ab("HupChecksUnappliedConf") THEN n
+            ELSE IF ~Ab("HupWaitsForPersistOnSelfQuorum") /\ n.log.persisted < Last_(n, st)
                     /\ JointVote(n.conf.voters, n.conf.outgoing, (n.id :> TRUE)) = "Won" THEN n
             ELSE IF transfer THEN Campaign(n, st, c, "Transfer", rt)
             ELSE IF n.preVote THEN Campaign(n, st, c, "PreElection", rt)
@@ -317,7 +321,7 @@ SendRequestSnapshot(n, st) ==
                                                     !.rs = n.prs, !.lt = LTerm(n.log, st, hint)])
 
 HandleAppendEntries(n, st, m) ==
-    IF n.prs # 0 THEN SendRequestSnapshot(n, st)
+    IF n.prs # 0 /\ ~Ab("AppendRefusedWhileSnapshotRequested") THEN SendRequestSnapshot(n, st)
     ELSE IF m.idx < n.log.committed
          THEN Send(n, [Msg("AppResp", m.from) EXCEPT !.idx = n.log.committed, !.commit = n.log.committed])
     ELSE LET r == LMaybeAppend(n.log, st, m.idx, m.lt, m.commit, m.ents)
@@ -362,7 +366,9 @@ AdvanceReads(n, k, upto) ==
 RecvAckAndAdvance(n, from, ctx) ==
     IF ctx \notin DOMAIN n.ro.pending THEN n
     ELSE LET n1 == [n EXCEPT !.ro.pending[ctx].acks = @ \cup {from}]
-         IN IF HasQuorumSet(n1, n1.ro.pending[ctx].acks)
+         IN IF (IF Ab("ReadAcksAreVoterQuorum")
+                THEN Cardinality(n1.ro.pending[ctx].acks) * 2 > Cardinality(VotersOf(n1.conf))
+                ELSE HasQuorumSet(n1, n1.ro.pending[ctx].acks))
             THEN AdvanceReads(n1, 1, ReadIdx(n1.ro.queue, ctx)) ELSE n1
 
 PostConfChange(n, st, c) ==
@@ -375,7 +381,8 @@ PostConfChange(n, st, c) ==
                       ELSE LET Op(a, j) == MaybeSendAppend(a, st, c, j, FALSE).n IN FoldIds(Op, n0, Others(n0))
                 ctx == LastPendingCtx(n1)
                 n2 == IF n1.ro.queue = <<>> THEN n1 ELSE RecvAckAndAdvance(n1, n1.id, ctx)
-            IN IF n2.lte # 0 /\ n2.lte \notin VotersOf(n2.conf) THEN [n2 EXCEPT !.lte = 0] ELSE n2
+            IN IF n2.lte # 0 /\ (IF Ab("AbortTransferWhenNotVoter") THEN n2.lte \notin DOMAIN n2.pr ELSE n2.lte \notin VotersOf(n2.conf))
+               THEN [n2 EXCEPT !.lte = 0] ELSE n2
 
 (* Raft::apply_conf_change = [ok, n] *)
 ApplyConfChange(n, st, c, tr, ch) ==
@@ -385,11 +392,12 @@ ApplyConfChange(n, st, c, tr, ch) ==
 
 (* Raft::restore = <<restored?, n'>> *)
 RestoreSnapshot(n, st, c, snap, rt) ==
-    IF snap.i < n.log.committed THEN <<FALSE, n>>
+    IF snap.i < n.log.committed /\ ~Ab("RestoreRejectsStale") THEN <<FALSE, n>>
     ELSE IF n.role # "F" THEN <<FALSE, BecomeFollower(n, st, n.term + 1, 0, rt)>>
     ELSE IF n.id \notin MembersOf(snap.conf) THEN <<FALSE, n>>
     ELSE IF n.prs = 0 /\ LMatchTerm(n.log, st, snap.i, snap.t)
          THEN <<FALSE, IF LCommitToFatal(n.log, st, snap.i) THEN Panic(n) ELSE SetLog(n, LCommitTo(n.log, snap.i))>>
+    ELSE IF LRestoreFatal(n.log, snap) THEN <<FALSE, Panic(n)>>
     ELSE LET n1 == SetLog(n, LRestore(n.log, snap))
              r == Restore(snap.conf)
              n2 == [n1 EXCEPT !.pr = EmptyFn, !.votes = EmptyFn, !.conf = EmptyConf]
@@ -422,7 +430,8 @@ HandleAppendResponse(n, st, c, m) ==
                     IN IF ~u[1] THEN [n EXCEPT !.pr[m.from] = u[2]]
                        ELSE LET p1 == u[2]
                                 p2 == CASE p1.state = "P" -> PrBecomeReplicate(p1)
-                                        [] p1.state = "S" -> IF p1.matched >= p1.pendSnap THEN PrBecomeProbe(p1) ELSE p1
+                                        [] p1.state = "S" -> IF p1.matched >= (IF Ab("SnapshotCaughtUp") THEN p1.pendReqSnap ELSE p1.pendSnap)
+                                                             THEN PrBecomeProbe(p1) ELSE p1
                                         [] OTHER -> [p1 EXCEPT !.ins = RFreeTo(@, m.idx)]
                                 n1 == [n EXCEPT !.pr[m.from] = p2]
                                 mc == MaybeCommit(n1, st)
@@ -431,7 +440,8 @@ HandleAppendResponse(n, st, c, m) ==
                                             ELSE IF ShouldBcastCommit(mc[2]) THEN BcastAppend(mc[2], st, c) ELSE mc[2])
                                       ELSE IF oldPaused THEN SendAppend(n1, st, c, m.from) ELSE n1
                                 n3 == IF n2.pan THEN n2 ELSE SendAppendAggressively(n2, st, c, m.from, 64)
-                            IN IF ~n3.pan /\ n3.lte = m.from /\ n3.pr[m.from].matched = Last_(n3, st)
+                            IN IF ~n3.pan /\ n3.lte = m.from
+                                  /\ n3.pr[m.from].matched = (IF Ab("TimeoutNowNeedsWholeLog") THEN n3.log.persisted ELSE Last_(n3, st))
                                THEN SendTimeoutNow(n3, m.from) ELSE n3
 
 HandleHeartbeatResponse(n, st, c, m) ==
@@ -449,7 +459,8 @@ HandleTransferLeader(n, st, c, m) ==
     ELSE LET n1 == [n EXCEPT !.lte = 0]
          IN IF m.from = n.id THEN n1
             ELSE LET n2 == [n1 EXCEPT !.ee = 0, !.lte = m.from]
-                 IN IF n2.pr[m.from].matched = Last_(n2, st) THEN SendTimeoutNow(n2, m.from)
+                 IN IF n2.pr[m.from].matched = (IF Ab("TimeoutNowNeedsWholeLog") THEN n2.log.persisted ELSE Last_(n2, st))
+                    THEN SendTimeoutNow(n2, m.from)
                     ELSE SendAppend(n2, st, c, m.from)
 
 HandleSnapshotStatus(n, m) ==
@@ -475,9 +486,10 @@ FilterProposal(n, st, es, k, acc) ==      \* <<n', entries'>>
          IN IF ~IsConfEntry(e) THEN FilterProposal(n, st, es, k + 1, Append(acc, e))
             ELSE LET joint == IsJoint(n.conf)
                      leave == e.ch = <<>> /\ e.ty = "C2"
-                     refuse == HasPendingConf(n) \/ (joint /\ ~leave) \/ (~joint /\ leave)
+                     refuse == ~Ab("ProposalConfFilter") /\ (HasPendingConf(n) \/ (joint /\ ~leave) \/ (~joint /\ leave))
                  IN IF refuse THEN FilterProposal(n, st, es, k + 1, Append(acc, EmptyEntry))
-                    ELSE FilterProposal([n EXCEPT !.pci = Last_(n, st) + k], st, es, k + 1, Append(acc, e))
+                    ELSE FilterProposal([n EXCEPT !.pci = Last_(n, st) + (IF Ab("PendingConfIndexPerEntry") THEN 1 ELSE k)],
+                                        st, es, k + 1, Append(acc, e))
 
 (* step_leader = [n, err] *)
 StepLeader(n, st, c, m, rt) ==
@@ -490,8 +502,13 @@ StepLeader(n, st, c, m, rt) ==
             ELSE IF n.id \notin DOMAIN n.pr \/ n.lte # 0 THEN [n |-> n, err |-> TRUE]
             ELSE LET f == FilterProposal(n, st, m.ents, 1, <<>>)
                      a == AppendEntry(f[1], st, c, f[2])
+                     a2 == IF Ab("SelfMatchOnPersistOnly") /\ a[1] /\ ~a[2].pan /\ n.id \in DOMAIN a[2].pr
+                           THEN LET x == [a[2] EXCEPT !.pr[n.id] = PrMaybeUpdate(@, Last_(a[2], st))[2]]
+                                    mc == MaybeCommit(x, st)
+                                IN mc[2]
+                           ELSE a[2]
                  IN IF ~a[1] THEN [n |-> f[1], err |-> TRUE]
-                    ELSE [n |-> IF a[2].pan THEN a[2] ELSE BcastAppend(a[2], st, c), err |-> FALSE]
+                    ELSE [n |-> IF a2.pan THEN a2 ELSE BcastAppend(a2, st, c), err |-> FALSE]
       [] m.ty = "ReadIndex" ->
             LET ctx == m.ents[1].p
                 req == [from |-> m.from, ctx |-> ctx]
@@ -516,7 +533,8 @@ StepCandidate(n, st, c, m, rt) ==
       [] m.ty = "HB" -> [n |-> HandleHeartbeat(BecomeFollower(n, st, m.term, m.from, rt), st, m), err |-> FALSE]
       [] m.ty = "Snap" -> [n |-> HandleSnapshot(BecomeFollower(n, st, m.term, m.from, rt), st, c, m, rt), err |-> FALSE]
       [] m.ty \in {"PreVoteResp", "VoteResp"} ->
-            IF (n.role = "P" /\ m.ty # "PreVoteResp") \/ (n.role = "C" /\ m.ty # "VoteResp")
+            IF (n.role = "P" /\ m.ty # "PreVoteResp")
+               \/ (n.role = "C" /\ m.ty # "VoteResp" /\ ~Ab("CandidateIgnoresPreVoteResp"))
             THEN [n |-> n, err |-> FALSE]
             ELSE LET p == Poll(n, st, c, m.from, ~m.rej, rt)
                  IN [n |-> IF p[2].pan THEN p[2] ELSE MaybeCommitByVote(p[2], st, m, rt), err |-> FALSE]
@@ -531,13 +549,14 @@ StepFollower(n, st, c, m, rt) ==
       [] m.ty = "Snap" -> [n |-> HandleSnapshot([n EXCEPT !.ee = 0, !.lead = m.from], st, c, m, rt), err |-> FALSE]
       [] m.ty = "Transfer" ->
             [n |-> IF n.lead = 0 THEN n ELSE Send(n, [m EXCEPT !.to = n.lead]), err |-> FALSE]
-      [] m.ty = "TimeoutNow" -> [n |-> IF n.promotable THEN Hup(n, st, c, TRUE, rt) ELSE n, err |-> FALSE]
+      [] m.ty = "TimeoutNow" -> [n |-> IF n.promotable \/ (Ab("TimeoutNowNeedsPromotable") /\ n.id \in DOMAIN n.pr)
+                                        THEN Hup(n, st, c, TRUE, rt) ELSE n, err |-> FALSE]
       [] m.ty = "ReadIndex" ->
             [n |-> IF n.lead = 0 THEN n ELSE Send(n, [m EXCEPT !.to = n.lead]), err |-> FALSE]
       [] m.ty = "ReadIndexResp" ->
             IF Len(m.ents) # 1 THEN [n |-> n, err |-> FALSE]
             ELSE LET n1 == [n EXCEPT !.readStates = Append(@, [index |-> m.idx, ctx |-> m.ents[1].p])]
-                 IN [n |-> IF LMaybeCommit(n1.log, st, m.idx, m.term)
+                 IN [n |-> IF LMaybeCommit(n1.log, st, m.idx, m.term) \/ (Ab("ReadIndexRespChecksLog") /\ m.idx > n1.log.committed)
                            THEN (IF LCommitToFatal(n1.log, st, m.idx) THEN Panic(n1)
                                  ELSE SetLog(n1, LCommitTo(n1.log, m.idx)))
                            ELSE n1,
@@ -548,12 +567,15 @@ StepFollower(n, st, c, m, rt) ==
 StepInner(n, st, c, m, rt) ==
     IF m.ty = "Hup" THEN [n |-> Hup(n, st, c, FALSE, rt), err |-> FALSE]
     ELSE IF m.ty \in {"Vote", "PreVote"}
-    THEN LET canVote == \/ n.vote = m.from
+    THEN LET transfer == m.ctx = "CampaignTransfer"
+             canVote == \/ (Ab("TransferRespectsCastVote") /\ transfer /\ m.ty = "Vote")
+                        \/ n.vote = m.from
                         \/ (n.vote = 0 /\ n.lead = 0)
                         \/ (m.ty = "PreVote" /\ m.term > n.term)
              lastTermErr == LTermErr(n.log, st, Last_(n, st))
          IN IF lastTermErr THEN [n |-> Panic(n), err |-> FALSE]
-            ELSE IF canVote /\ LIsUpToDate(n.log, st, m.idx, m.lt) /\ (m.idx > Last_(n, st) \/ n.prio <= m.prio)
+            ELSE IF canVote /\ (LIsUpToDate(n.log, st, m.idx, m.lt) \/ (Ab("TransferVoteUpToDate") /\ transfer))
+                    /\ (m.idx > Last_(n, st) \/ n.prio <= m.prio)
             THEN LET n1 == Send(n, [Msg(RespOf(m.ty), m.from) EXCEPT !.term = m.term])
                  IN [n |-> IF m.ty = "Vote" THEN [n1 EXCEPT !.ee = 0, !.vote = m.from] ELSE n1, err |-> FALSE]
             ELSE IF LTermErr(n.log, st, n.log.committed) THEN [n |-> Panic(n), err |-> FALSE]
@@ -571,8 +593,10 @@ Step(n, st, c, m, rt) ==
     ELSE IF m.term > n.term
     THEN LET force == m.ctx = "CampaignTransfer"
              inLease == n.checkQuorum /\ n.lead # 0 /\ n.ee < c.election_tick
+                        /\ ~(Ab("LeaderLeaseCoversPreVote") /\ n.role = "L" /\ m.ty = "PreVote")
          IN IF m.ty \in {"Vote", "PreVote"} /\ ~force /\ inLease THEN [n |-> n, err |-> FALSE]
-            ELSE IF m.ty = "PreVote" \/ (m.ty = "PreVoteResp" /\ ~m.rej) THEN StepInner(n, st, c, m, rt)
+            ELSE IF m.ty = "PreVote" \/ (m.ty = "PreVoteResp" /\ ~m.rej /\ (~Ab("PreVoteGrantNeverBumpsTerm") \/ n.role = "P"))
+                 THEN StepInner(n, st, c, m, rt)
             ELSE StepInner(BecomeFollower(n, st, m.term, IF m.ty \in {"App", "HB", "Snap"} THEN m.from ELSE 0, rt),
                            st, c, m, rt)
     ELSE IF m.term < n.term
@@ -593,7 +617,8 @@ Tick(n, st, c, rt) ==
              n2 == IF n1.ee >= c.election_tick
                    THEN LET a == [n1 EXCEPT !.ee = 0]
                             b == IF a.checkQuorum THEN Step(a, st, c, [Msg("CheckQuorum", 0) EXCEPT !.from = n.id], rt).n ELSE a
-                        IN IF b.role = "L" /\ b.lte # 0 THEN [b EXCEPT !.lte = 0] ELSE b
+                        IN IF b.role = "L" /\ b.lte # 0 /\ ~(Ab("TransferTimeoutAlwaysChecked") /\ a.checkQuorum)
+                           THEN [b EXCEPT !.lte = 0] ELSE b
                    ELSE n1
          IN IF n2.role # "L" THEN n2
             ELSE IF n2.he >= c.heartbeat_tick
